@@ -1,12 +1,823 @@
 //! C22 observation transforms and C23 metamorphic relations over the harness AST.
+//! Each relation is applied only at sites where it is sound (DESIGN.md section 4, C23).
 
-use crate::checks::{CaseBridge, HarnessError};
+use std::collections::BTreeMap;
+use std::rc::Rc;
+
+use trustfall_core::ir::FieldValue;
+
+use crate::adapter::SchedCfg;
+use crate::checks::{CaseBridge, HarnessError, Violation, harness_check_pub};
+use crate::model::{Row, canon_rows, cmp_row, render_row, rows_differ};
+use crate::qast::{
+    EdgeKind, FoldSpec, Operand, QEdge, QFilter, QItem, QNode, QProp, QueryAst, VarInfo,
+};
+use crate::runner::{
+    BuildError, Ending, ExecOpts, ExecOutcome, Workload, exec, finish_workload,
+};
 use crate::tape::Tape;
+use crate::val::{Base, Op, Ty, Val};
+use crate::world::{ParamMeaning, World, gen_fv};
 
-pub fn case_c22(_cx: &mut CaseBridge<'_, '_>, _sched: &mut Tape) -> Result<(), HarnessError> {
-    Err(HarnessError("C22 not built yet".into()))
+#[derive(Clone, Debug)]
+struct Site {
+    /// item indices of the edges leading from the root node to this node
+    path: Vec<usize>,
+    in_fold: bool,
+    in_optional: bool,
 }
 
-pub fn case_c23(_cx: &mut CaseBridge<'_, '_>, _sched: &mut Tape) -> Result<(), HarnessError> {
-    Err(HarnessError("C23 not built yet".into()))
+fn node_at<'a>(root: &'a QNode, path: &[usize]) -> &'a QNode {
+    let mut n = root;
+    for i in path {
+        match &n.items[*i] {
+            QItem::Edge(e) => n = &e.node,
+            _ => unreachable!("path does not lead through an edge"),
+        }
+    }
+    n
+}
+
+fn node_at_mut<'a>(root: &'a mut QNode, path: &[usize]) -> &'a mut QNode {
+    let mut n = root;
+    for i in path {
+        match &mut n.items[*i] {
+            QItem::Edge(e) => n = &mut e.node,
+            _ => unreachable!("path does not lead through an edge"),
+        }
+    }
+    n
+}
+
+fn collect_sites(n: &QNode, path: &mut Vec<usize>, in_fold: bool, in_opt: bool, out: &mut Vec<Site>) {
+    out.push(Site { path: path.clone(), in_fold, in_optional: in_opt });
+    for (i, it) in n.items.iter().enumerate() {
+        if let QItem::Edge(e) = it {
+            path.push(i);
+            match &e.kind {
+                EdgeKind::Plain | EdgeKind::Recurse(_) => collect_sites(&e.node, path, in_fold, in_opt, out),
+                EdgeKind::Optional => collect_sites(&e.node, path, in_fold, true, out),
+                EdgeKind::Fold(_) => collect_sites(&e.node, path, true, false, out),
+            }
+            path.pop();
+        }
+    }
+}
+
+fn sites(q: &QueryAst) -> Vec<Site> {
+    let mut out = vec![];
+    collect_sites(&q.root, &mut vec![], false, false, &mut out);
+    out
+}
+
+fn has_any_tag(q: &QueryAst) -> bool {
+    q.features().contains("tag") || q.features().contains("count_tag")
+}
+
+fn fresh_name(q: &QueryAst, prefix: &str) -> String {
+    // names used by the generator are prefix+number; "x"-prefixed names are never generated
+    let mut k = 0;
+    loop {
+        let n = format!("{prefix}x{k}");
+        if !q.vars.iter().any(|v| v.name == n) {
+            return n;
+        }
+        k += 1;
+    }
+}
+
+fn rebuild(
+    base: &Workload,
+    world: Rc<World>,
+    mut q: QueryAst,
+    args: BTreeMap<String, FieldValue>,
+) -> Result<Workload, String> {
+    q.renumber();
+    let (schema_text, schema) = if Rc::ptr_eq(&world, &base.world) {
+        (base.schema_text.clone(), base.schema.clone())
+    } else {
+        // same schema text (parameter meanings live only in the data source)
+        (base.schema_text.clone(), base.schema.clone())
+    };
+    match finish_workload(world, schema_text, schema, q, args) {
+        Ok(w) => Ok(w),
+        Err(BuildError::Discard(_, Some((_, qt)))) => Err(format!("transformed query rejected: {qt}")),
+        Err(_) => Err("transformed query could not be built".into()),
+    }
+}
+
+fn run(
+    cx: &mut CaseBridge<'_, '_>,
+    w: &Workload,
+    cfg: SchedCfg,
+    sched: &mut Tape,
+) -> Result<ExecOutcome, HarnessError> {
+    let mut o = ExecOpts::new(cfg);
+    o.event_cap = 400 * cx.model.steps + 200_000;
+    let t = std::mem::replace(sched, Tape::replaying(vec![]));
+    let e = exec(w, o, t);
+    *sched = e.sched.clone();
+    harness_check_pub(&e)?;
+    cx.absorb(&e);
+    Ok(e)
+}
+
+fn project(rows: &[Row], names: &[String]) -> Vec<Row> {
+    rows.iter()
+        .map(|r| r.iter().filter(|(k, _)| names.contains(k)).map(|(k, v)| (k.clone(), v.clone())).collect())
+        .collect()
+}
+
+/// multiset inclusion a ⊆ b
+fn included(a: &[Row], b: &[Row]) -> Option<String> {
+    let ca = canon_rows(a);
+    let cb = canon_rows(b);
+    let (mut i, mut j) = (0, 0);
+    while i < ca.len() {
+        if j >= cb.len() {
+            return Some(format!("row lost: {}", render_row(&ca[i].iter().cloned().collect())));
+        }
+        match cmp_row(&ca[i], &cb[j]) {
+            std::cmp::Ordering::Equal => {
+                i += 1;
+                j += 1;
+            }
+            std::cmp::Ordering::Greater => j += 1,
+            std::cmp::Ordering::Less => {
+                return Some(format!("row lost: {}", render_row(&ca[i].iter().cloned().collect())));
+            }
+        }
+    }
+    None
+}
+
+fn ok(e: &ExecOutcome) -> bool {
+    matches!(e.ending, Ending::Completed)
+}
+
+// ---------------------------------------------------------------------------------------------
+// C22
+
+fn fold_paths(q: &QueryAst) -> Vec<(Vec<usize>, usize)> {
+    // (path to the parent node, item index of the fold edge)
+    let mut out = vec![];
+    for s in sites(q) {
+        let n = node_at(&q.root, &s.path);
+        for (i, it) in n.items.iter().enumerate() {
+            if let QItem::Edge(e) = it {
+                if matches!(e.kind, EdgeKind::Fold(_)) {
+                    out.push((s.path.clone(), i));
+                }
+            }
+        }
+    }
+    out
+}
+
+pub fn case_c22(cx: &mut CaseBridge<'_, '_>, sched: &mut Tape) -> Result<(), HarnessError> {
+    let w = cx.w;
+    let base = run(cx, w, SchedCfg::lazy(), sched)?;
+    if matches!(base.ending, Ending::ArgsRejected(_)) {
+        cx.stats.discarded = Some("args_rejected".into());
+        return Ok(());
+    }
+    if !ok(&base) {
+        cx.stats.inconclusive.push(format!("S0: {}", crate::checks::ending_name(&base)));
+        return Ok(());
+    }
+    // (1) refinement against the full-materialisation model, under a random schedule
+    let cfg = SchedCfg::draw(sched, false);
+    let er = run(cx, w, cfg, sched)?;
+    for (name, e) in [("S0", &base), ("random", &er)] {
+        if ok(e) && cx.model.undefined.is_none() {
+            if let Some(d) = rows_differ(&e.rows, &cx.model.rows, cx.model.nonforest) {
+                cx.push(
+                    "rows-differ-from-full-materialisation-model",
+                    format!("[{name}] engine vs model: {d}"),
+                    name,
+                );
+            }
+        }
+    }
+    // (2) observation transforms, model-free
+    let folds = fold_paths(&w.q);
+    if folds.is_empty() {
+        return Ok(());
+    }
+    let has_count_filter = w.q.features().contains("count_filter");
+    if has_count_filter {
+        cx.stats.probes.insert("c22_query_has_count_filter".into());
+    }
+    let orig_names: Vec<String> = {
+        let mut v = vec![];
+        crate::model::output_names(&w.q.root, "", &mut v);
+        v
+    };
+    let (ppath, idx) = folds[sched.draw(folds.len() as u32) as usize].clone();
+    for kind in 0..3 {
+        let mut q = w.q.clone();
+        let mut args = w.args.clone();
+        let parent = node_at_mut(&mut q.root, &ppath);
+        let parent_ty = parent.eff_ty();
+        let label;
+        {
+            let QItem::Edge(e) = &mut parent.items[idx] else { unreachable!() };
+            let EdgeKind::Fold(fs) = &mut e.kind else { unreachable!() };
+            match kind {
+                0 => {
+                    label = "add-count-output";
+                    fs.transform_count = true;
+                    fs.count_outputs.push(Some("obs_count".to_string()));
+                }
+                1 => {
+                    label = "add-output-inside-fold";
+                    e.node.items.push(QItem::Prop(QProp {
+                        name: "__typename".into(),
+                        alias: None,
+                        ty: Ty::named(Base::Str, false),
+                        outputs: vec![Some("obs_inner".to_string())],
+                        tags: vec![],
+                        filters: vec![],
+                    }));
+                }
+                _ => {
+                    label = "add-count-tag-and-use";
+                    fs.transform_count = true;
+                    fs.count_tags.push("obs_tag".to_string());
+                }
+            }
+        }
+        if kind == 2 {
+            // a use of the tag that cannot influence results: a filter inside a new, unobserved
+            // fold appended after the tagged one
+            let mut added = false;
+            for ed in w.world.schema.types[parent_ty].edges.clone() {
+                let Some(p) = w.world.schema.types[ed.target]
+                    .props
+                    .iter()
+                    .find(|p| matches!(p.ty, Ty::Named(Base::Int, _)))
+                    .cloned()
+                else {
+                    continue;
+                };
+                let mut params = BTreeMap::new();
+                for pd in &ed.params {
+                    if pd.default.is_none() && !pd.ty.nullable() {
+                        params.insert(pd.name.clone(), gen_fv(&pd.ty, sched));
+                    }
+                }
+                let node = QNode {
+                    static_ty: ed.target,
+                    coerce_to: None,
+                    vid: 0,
+                    items: vec![QItem::Prop(QProp {
+                        name: p.name.clone(),
+                        alias: None,
+                        ty: p.ty.clone(),
+                        outputs: vec![],
+                        tags: vec![],
+                        filters: vec![QFilter { op: Op::Ge, operand: Operand::Tag("obs_tag".into()) }],
+                    })],
+                };
+                let parent = node_at_mut(&mut q.root, &ppath);
+                parent.items.push(QItem::Edge(QEdge {
+                    name: ed.name.clone(),
+                    alias: None,
+                    params,
+                    kind: EdgeKind::Fold(FoldSpec::default()),
+                    node,
+                }));
+                added = true;
+                break;
+            }
+            if !added {
+                continue;
+            }
+        }
+        let _ = &mut args;
+        let w2 = match rebuild(w, w.world.clone(), q, args) {
+            Ok(w2) => w2,
+            Err(m) => {
+                cx.stats.inconclusive.push(format!("{label}: {}", m.lines().next().unwrap_or("")));
+                continue;
+            }
+        };
+        let cfg = SchedCfg::draw(sched, false);
+        let e2 = run(cx, &w2, cfg, sched)?;
+        match &e2.ending {
+            Ending::Completed => {
+                cx.stats.probes.insert(format!("c22_transform_{label}"));
+                let projected = project(&e2.rows, &orig_names);
+                if let Some(d) = rows_differ(&base.rows, &projected, false) {
+                    cx.push(
+                        "observing-the-fold-changed-other-outputs-or-rows",
+                        format!("[{label}] original vs observed query: {d}\n--- observed query:\n{}", w2.query_text),
+                        label,
+                    );
+                }
+            }
+            Ending::Panic(info) => cx.violations.push(Violation {
+                property: cx.prop.to_string(),
+                class: "panic-after-observation-transform".into(),
+                detail: format!("[{label}] panicked at {}: {}", info.location, info.message.lines().next().unwrap_or("")),
+                fingerprint: info.fingerprint(),
+            }),
+            _ => {}
+        }
+    }
+    Ok(())
+}
+
+// ---------------------------------------------------------------------------------------------
+// C23
+
+fn filter_ops_for(ty: &Ty) -> Vec<Op> {
+    let mut ops = vec![Op::Eq, Op::Ne, Op::OneOf, Op::NotOneOf];
+    if ty.nullable() {
+        ops.extend([Op::IsNull, Op::IsNotNull]);
+    }
+    if !ty.is_list() && matches!(ty.base(), Base::Int | Base::Float | Base::Str) {
+        ops.extend([Op::Lt, Op::Le, Op::Gt, Op::Ge]);
+    }
+    if ty.is_list() {
+        ops.extend([Op::Contains, Op::NotContains]);
+    }
+    if matches!(ty, Ty::Named(Base::Str, _)) {
+        ops.extend([Op::HasPrefix, Op::HasSuffix, Op::HasSubstring, Op::Regex, Op::NotHasPrefix, Op::NotRegex]);
+    }
+    ops
+}
+
+fn var_type_for(op: Op, subject: &Ty) -> Ty {
+    match op {
+        Op::Eq | Op::Ne => subject.clone(),
+        Op::Lt | Op::Le | Op::Gt | Op::Ge => subject.with_nullable(false),
+        Op::Contains | Op::NotContains => subject.elem().unwrap().clone(),
+        Op::OneOf | Op::NotOneOf => Ty::list(subject.clone(), false),
+        _ => Ty::named(Base::Str, false),
+    }
+}
+
+/// Property selections (node path, item index) satisfying a predicate on their site.
+fn prop_sites(q: &QueryAst, pred: impl Fn(&Site) -> bool) -> Vec<(Vec<usize>, usize)> {
+    let mut out = vec![];
+    for s in sites(q) {
+        if !pred(&s) {
+            continue;
+        }
+        let n = node_at(&q.root, &s.path);
+        for (i, it) in n.items.iter().enumerate() {
+            if matches!(it, QItem::Prop(_)) {
+                out.push((s.path.clone(), i));
+            }
+        }
+    }
+    out
+}
+
+fn edge_sites(q: &QueryAst, pred: impl Fn(&Site, &QEdge) -> bool) -> Vec<(Vec<usize>, usize)> {
+    let mut out = vec![];
+    for s in sites(q) {
+        let n = node_at(&q.root, &s.path);
+        for (i, it) in n.items.iter().enumerate() {
+            if let QItem::Edge(e) = it {
+                if pred(&s, e) {
+                    out.push((s.path.clone(), i));
+                }
+            }
+        }
+    }
+    out
+}
+
+enum Relation {
+    /// rows(transformed) ⊆ rows(original)
+    NewSubsetOfOld,
+    /// rows(original) ⊆ rows(transformed)
+    OldSubsetOfNew,
+    SameMultiset,
+    SameSequenceUpToRenaming(BTreeMap<String, String>),
+    /// rows(t1) ⊎ rows(t2) == rows(original)
+    Partition(Box<Workload>),
+}
+
+pub fn case_c23(cx: &mut CaseBridge<'_, '_>, sched: &mut Tape) -> Result<(), HarnessError> {
+    let w = cx.w;
+    // try relations in a tape-chosen rotation until one is applicable
+    let start = sched.draw(8);
+    let mut chosen: Option<(&'static str, Workload, Relation, Option<Workload>)> = None;
+    for k in 0..8 {
+        let which = (start + k) % 8;
+        if let Some(x) = build_relation(which, w, sched) {
+            chosen = Some(x);
+            break;
+        }
+    }
+    let Some((label, w2, relation, orig_override)) = chosen else {
+        cx.stats.discarded = Some("no_transformation_applicable".into());
+        return Ok(());
+    };
+    let w_orig: &Workload = orig_override.as_ref().unwrap_or(w);
+    cx.stats.probes.insert(format!("c23_{label}"));
+    let cfg_a = SchedCfg::draw(sched, true);
+    let ea = run(cx, w_orig, cfg_a, sched)?;
+    if matches!(ea.ending, Ending::ArgsRejected(_)) {
+        cx.stats.discarded = Some("args_rejected".into());
+        return Ok(());
+    }
+    let cfg_b = SchedCfg::draw(sched, true);
+    let eb = run(cx, &w2, cfg_b, sched)?;
+    if !ok(&ea) || !ok(&eb) {
+        cx.stats.inconclusive.push(format!(
+            "{label}: {} / {}",
+            crate::checks::ending_name(&ea),
+            crate::checks::ending_name(&eb)
+        ));
+        return Ok(());
+    }
+    let fail = match &relation {
+        Relation::NewSubsetOfOld => included(&eb.rows, &ea.rows).map(|d| format!("transformed query has a row the original lacks: {d}")),
+        Relation::OldSubsetOfNew => included(&ea.rows, &eb.rows).map(|d| format!("original row missing after the transformation: {d}")),
+        Relation::SameMultiset => rows_differ(&ea.rows, &eb.rows, false),
+        Relation::SameSequenceUpToRenaming(map) => {
+            let renamed: Vec<Row> = ea
+                .rows
+                .iter()
+                .map(|r| r.iter().map(|(k, v)| (map.get(k).cloned().unwrap_or(k.clone()), v.clone())).collect())
+                .collect();
+            rows_differ(&renamed, &eb.rows, false)
+        }
+        Relation::Partition(wneg) => {
+            let cfg_c = SchedCfg::draw(sched, true);
+            let ec = run(cx, wneg, cfg_c, sched)?;
+            if !ok(&ec) {
+                cx.stats.inconclusive.push(format!("{label}: negated run {}", crate::checks::ending_name(&ec)));
+                None
+            } else {
+                // here `ea` is the unfiltered query, `eb` the filtered one, `ec` the negated one
+                let mut both = eb.rows.clone();
+                both.extend(ec.rows.iter().cloned());
+                rows_differ(&ea.rows, &both, false)
+            }
+        }
+    };
+    if let Some(d) = fail {
+        cx.push(
+            "metamorphic-relation-violated",
+            format!(
+                "[{label}] {d}\n--- original:\n{}--- transformed:\n{}",
+                w_orig.query_text, w2.query_text
+            ),
+            label,
+        );
+    }
+    Ok(())
+}
+
+fn build_relation(
+    which: u32,
+    w: &Workload,
+    t: &mut Tape,
+) -> Option<(&'static str, Workload, Relation, Option<Workload>)> {
+    match which {
+        // 0. adding a filter never adds rows (site in the root component)
+        0 => {
+            let cands = prop_sites(&w.q, |s| !s.in_fold);
+            if cands.is_empty() {
+                return None;
+            }
+            let (path, idx) = cands[t.draw(cands.len() as u32) as usize].clone();
+            let mut q = w.q.clone();
+            let mut args = w.args.clone();
+            let vname = fresh_name(&q, "v");
+            let n = node_at_mut(&mut q.root, &path);
+            let QItem::Prop(p) = &mut n.items[idx] else { return None };
+            let ops = filter_ops_for(&p.ty);
+            let op = ops[t.draw(ops.len() as u32) as usize];
+            if op.unary() {
+                p.filters.push(QFilter { op, operand: Operand::None });
+            } else {
+                let vty = var_type_for(op, &p.ty);
+                args.insert(vname.clone(), gen_fv(&vty, t));
+                p.filters.push(QFilter { op, operand: Operand::Var(vname.clone()) });
+                q.vars.push(VarInfo { name: vname, ty: vty, regex: false, count: false });
+            }
+            let w2 = rebuild(w, w.world.clone(), q, args).ok()?;
+            Some(("add-filter", w2, Relation::NewSubsetOfOld, None))
+        }
+        // 1. raising a recursion depth never removes rows (root component)
+        1 => {
+            let cands = edge_sites(&w.q, |s, e| !s.in_fold && matches!(e.kind, EdgeKind::Recurse(_)));
+            if cands.is_empty() {
+                return None;
+            }
+            let (path, idx) = cands[t.draw(cands.len() as u32) as usize].clone();
+            let mut q = w.q.clone();
+            let n = node_at_mut(&mut q.root, &path);
+            let QItem::Edge(e) = &mut n.items[idx] else { return None };
+            if let EdgeKind::Recurse(d) = &mut e.kind {
+                *d += 1;
+            }
+            let w2 = rebuild(w, w.world.clone(), q, w.args.clone()).ok()?;
+            Some(("raise-recursion-depth", w2, Relation::OldSubsetOfNew, None))
+        }
+        // 2. making an edge @optional keeps all previous rows (root component)
+        2 => {
+            let cands = edge_sites(&w.q, |s, e| !s.in_fold && matches!(e.kind, EdgeKind::Plain));
+            if cands.is_empty() {
+                return None;
+            }
+            let (path, idx) = cands[t.draw(cands.len() as u32) as usize].clone();
+            let mut q = w.q.clone();
+            let n = node_at_mut(&mut q.root, &path);
+            let QItem::Edge(e) = &mut n.items[idx] else { return None };
+            e.kind = EdgeKind::Optional;
+            let w2 = rebuild(w, w.world.clone(), q, w.args.clone()).ok()?;
+            Some(("make-edge-optional", w2, Relation::OldSubsetOfNew, None))
+        }
+        // 3. parameterised edge == the equivalent filter (edge without @optional / @recurse)
+        3 => {
+            let world = &w.world;
+            let cands: Vec<(Vec<usize>, usize, String)> = {
+                let mut out = vec![];
+                for s in sites(&w.q) {
+                    let n = node_at(&w.q.root, &s.path);
+                    for (i, it) in n.items.iter().enumerate() {
+                        if let QItem::Edge(e) = it {
+                            if !matches!(e.kind, EdgeKind::Plain | EdgeKind::Fold(_)) {
+                                continue;
+                            }
+                            if e.node.coerce_to.is_some() {
+                                continue;
+                            }
+                            let Some(def) = world.schema.edge(n.eff_ty(), &e.name) else { continue };
+                            // the transformed run's data source ignores the parameter on every
+                            // use of this edge, so the edge must be used exactly once
+                            if edge_uses(&w.q.root, &e.name) != 1 {
+                                continue;
+                            }
+                            for pd in &def.params {
+                                if matches!(pd.meaning, ParamMeaning::EqProp(_) | ParamMeaning::MinProp(_)) {
+                                    out.push((s.path.clone(), i, pd.name.clone()));
+                                }
+                            }
+                        }
+                    }
+                }
+                out
+            };
+            if cands.is_empty() {
+                return None;
+            }
+            let (path, idx, pname) = cands[t.draw(cands.len() as u32) as usize].clone();
+            let n = node_at(&w.q.root, &path);
+            let QItem::Edge(e) = &n.items[idx] else { return None };
+            let def = world.schema.edge(n.eff_ty(), &e.name)?.clone();
+            let pd = def.params.iter().find(|p| p.name == pname)?.clone();
+            let value = match e.params.get(&pname) {
+                Some(v) => v.clone(),
+                None => pd.default.clone().unwrap_or(FieldValue::Null),
+            };
+            let (prop, op) = match &pd.meaning {
+                ParamMeaning::EqProp(p) => (p.clone(), Op::Eq),
+                ParamMeaning::MinProp(p) => (p.clone(), Op::Ge),
+                _ => return None,
+            };
+            let pty = world.schema.prop(def.target, &prop)?.ty.clone();
+            let vty = var_type_for(op, &pty);
+            if !vty.admits(&Val::from_fv(&value)) {
+                return None;
+            }
+            // The data source of the transformed run ignores this parameter on this edge for
+            // every type that has the edge; the query filters on the property instead.
+            let mut world2: World = (**world).clone();
+            for td in world2.schema.types.iter_mut() {
+                for ed in td.edges.iter_mut() {
+                    if ed.name == def.name {
+                        for p in ed.params.iter_mut() {
+                            if p.name == pname {
+                                p.meaning = ParamMeaning::Ignored;
+                            }
+                        }
+                    }
+                }
+            }
+            let mut q = w.q.clone();
+            let mut args = w.args.clone();
+            let vname = fresh_name(&q, "v");
+            args.insert(vname.clone(), value);
+            q.vars.push(VarInfo { name: vname.clone(), ty: vty, regex: false, count: false });
+            let n2 = node_at_mut(&mut q.root, &path);
+            let QItem::Edge(e2) = &mut n2.items[idx] else { return None };
+            e2.node.items.insert(
+                0,
+                QItem::Prop(QProp {
+                    name: prop,
+                    alias: None,
+                    ty: pty,
+                    outputs: vec![],
+                    tags: vec![],
+                    filters: vec![QFilter { op, operand: Operand::Var(vname) }],
+                }),
+            );
+            let w2 = rebuild(w, Rc::new(world2), q, args).ok()?;
+            Some(("parameterized-edge-as-filter", w2, Relation::SameMultiset, None))
+        }
+        // 4. `=` and one_of with a single-element list agree
+        4 => {
+            let mut cands = vec![];
+            for s in sites(&w.q) {
+                let n = node_at(&w.q.root, &s.path);
+                for (i, it) in n.items.iter().enumerate() {
+                    if let QItem::Prop(p) = it {
+                        for (fi, f) in p.filters.iter().enumerate() {
+                            if f.op == Op::Eq && matches!(f.operand, Operand::Var(_)) {
+                                cands.push((s.path.clone(), i, fi));
+                            }
+                        }
+                    }
+                }
+            }
+            if cands.is_empty() {
+                return None;
+            }
+            let (path, idx, fi) = cands[t.draw(cands.len() as u32) as usize].clone();
+            let mut q = w.q.clone();
+            let mut args = w.args.clone();
+            let vname = fresh_name(&q, "v");
+            let n = node_at_mut(&mut q.root, &path);
+            let QItem::Prop(p) = &mut n.items[idx] else { return None };
+            let Operand::Var(old) = p.filters[fi].operand.clone() else { return None };
+            let oldv = args.get(&old)?.clone();
+            args.insert(vname.clone(), FieldValue::List(vec![oldv].into()));
+            let vty = Ty::list(p.ty.clone(), false);
+            p.filters[fi] = QFilter { op: Op::OneOf, operand: Operand::Var(vname.clone()) };
+            q.vars.push(VarInfo { name: vname, ty: vty, regex: false, count: false });
+            // the old variable may now be unused
+            if !var_used(&q.root, &old) {
+                args.remove(&old);
+                q.vars.retain(|v| v.name != old);
+            }
+            let w2 = rebuild(w, w.world.clone(), q, args).ok()?;
+            Some(("equals-as-one-of", w2, Relation::SameMultiset, None))
+        }
+        // 5. a filter and its negation partition the rows (outside optional scopes, root component)
+        5 => {
+            let mut cands = vec![];
+            for s in sites(&w.q) {
+                if s.in_fold || s.in_optional {
+                    continue;
+                }
+                let n = node_at(&w.q.root, &s.path);
+                for (i, it) in n.items.iter().enumerate() {
+                    if let QItem::Prop(p) = it {
+                        for (fi, f) in p.filters.iter().enumerate() {
+                            if f.op.has_exact_complement() && !matches!(f.operand, Operand::Tag(_)) {
+                                cands.push((s.path.clone(), i, fi));
+                            }
+                        }
+                    }
+                }
+            }
+            if cands.is_empty() {
+                return None;
+            }
+            let (path, idx, fi) = cands[t.draw(cands.len() as u32) as usize].clone();
+            // unfiltered
+            let mut q0 = w.q.clone();
+            let mut args0 = w.args.clone();
+            {
+                let n = node_at_mut(&mut q0.root, &path);
+                let QItem::Prop(p) = &mut n.items[idx] else { return None };
+                let f = p.filters.remove(fi);
+                if let Operand::Var(v) = f.operand {
+                    if !var_used(&q0.root, &v) {
+                        args0.remove(&v);
+                        q0.vars.retain(|x| x.name != v);
+                    }
+                }
+            }
+            // negated
+            let mut qn = w.q.clone();
+            {
+                let n = node_at_mut(&mut qn.root, &path);
+                let QItem::Prop(p) = &mut n.items[idx] else { return None };
+                p.filters[fi].op = p.filters[fi].op.negation();
+            }
+            let w0 = rebuild(w, w.world.clone(), q0, args0).ok()?;
+            let wn = rebuild(w, w.world.clone(), qn, w.args.clone()).ok()?;
+            let wf = rebuild(w, w.world.clone(), w.q.clone(), w.args.clone()).ok()?;
+            // original := unfiltered; transformed := filtered; third := negated
+            Some(("filter-and-negation-partition", wf, Relation::Partition(Box::new(wn)), Some(w0)))
+        }
+        // 6. renaming outputs and tags changes no row contents
+        6 => {
+            let mut q = w.q.clone();
+            let mut map = BTreeMap::new();
+            fn go(n: &mut QNode, map: &mut BTreeMap<String, String>) {
+                for it in n.items.iter_mut() {
+                    match it {
+                        QItem::Prop(p) => {
+                            for o in p.outputs.iter_mut().flatten() {
+                                let nn = format!("ren_{o}");
+                                map.insert(o.clone(), nn.clone());
+                                *o = nn;
+                            }
+                            for tg in p.tags.iter_mut().flatten() {
+                                *tg = format!("ren_{tg}");
+                            }
+                            for f in p.filters.iter_mut() {
+                                if let Operand::Tag(tn) = &mut f.operand {
+                                    *tn = format!("ren_{tn}");
+                                }
+                            }
+                        }
+                        QItem::Edge(e) => {
+                            if let EdgeKind::Fold(fs) = &mut e.kind {
+                                for o in fs.count_outputs.iter_mut().flatten() {
+                                    let nn = format!("ren_{o}");
+                                    map.insert(o.clone(), nn.clone());
+                                    *o = nn;
+                                }
+                                for tg in fs.count_tags.iter_mut() {
+                                    *tg = format!("ren_{tg}");
+                                }
+                                for f in fs.count_filters.iter_mut() {
+                                    if let Operand::Tag(tn) = &mut f.operand {
+                                        *tn = format!("ren_{tn}");
+                                    }
+                                }
+                            }
+                            go(&mut e.node, map);
+                        }
+                    }
+                }
+            }
+            go(&mut q.root, &mut map);
+            if map.is_empty() && !has_any_tag(&w.q) {
+                return None;
+            }
+            let w2 = rebuild(w, w.world.clone(), q, w.args.clone()).ok()?;
+            Some(("rename-outputs-and-tags", w2, Relation::SameSequenceUpToRenaming(map), None))
+        }
+        // 7. reordering sibling selections (no crossing tag dependency) changes no row contents
+        _ => {
+            let no_tags = !has_any_tag(&w.q);
+            let mut cands = vec![];
+            for s in sites(&w.q) {
+                let n = node_at(&w.q.root, &s.path);
+                for i in 0..n.items.len().saturating_sub(1) {
+                    let both_props = matches!(n.items[i], QItem::Prop(_)) && matches!(n.items[i + 1], QItem::Prop(_));
+                    // swapping two property selections never moves a vertex; with no tags in the
+                    // query any two siblings may be swapped
+                    let implicit_names_stable = true;
+                    if (both_props || no_tags) && implicit_names_stable {
+                        cands.push((s.path.clone(), i));
+                    }
+                }
+            }
+            if cands.is_empty() {
+                return None;
+            }
+            let (path, i) = cands[t.draw(cands.len() as u32) as usize].clone();
+            let mut q = w.q.clone();
+            let n = node_at_mut(&mut q.root, &path);
+            n.items.swap(i, i + 1);
+            let w2 = rebuild(w, w.world.clone(), q, w.args.clone()).ok()?;
+            Some(("reorder-sibling-selections", w2, Relation::SameMultiset, None))
+        }
+    }
+}
+
+fn edge_uses(n: &QNode, name: &str) -> usize {
+    n.items
+        .iter()
+        .map(|it| match it {
+            QItem::Edge(e) => (e.name == name) as usize + edge_uses(&e.node, name),
+            _ => 0,
+        })
+        .sum()
+}
+
+fn var_used(n: &QNode, name: &str) -> bool {
+    for it in &n.items {
+        match it {
+            QItem::Prop(p) => {
+                if p.filters.iter().any(|f| matches!(&f.operand, Operand::Var(v) if v == name)) {
+                    return true;
+                }
+            }
+            QItem::Edge(e) => {
+                if let EdgeKind::Fold(fs) = &e.kind {
+                    if fs.count_filters.iter().any(|f| matches!(&f.operand, Operand::Var(v) if v == name)) {
+                        return true;
+                    }
+                }
+                if var_used(&e.node, name) {
+                    return true;
+                }
+            }
+        }
+    }
+    false
 }
